@@ -19,8 +19,13 @@ def one(args):
             lines.append("START RTS \n")
         else:
             lines.append("START LDA #1\n")
-            if size > 3:
-                lines.append(" RMB %d\n" % (size - 3))
+            fill = size - 3
+            if cfg.get("marker") and fill >= 4:     # the program's own bytes look like a cassette block header ($55 $3C type length)
+                lines.append(" FDB $553C\n")
+                lines.append(" FCB $%02X,$%02X\n" % ((0x01, 0x02) if cfg["marker"] == 1 else (0xFF, 0x00)))
+                fill -= 4
+            if fill > 0:
+                lines.append(" RMB %d\n" % fill)
             if size >= 3:
                 lines.append(" RTS \n")
         if cfg["endop"]:
@@ -67,6 +72,8 @@ def run(ctx):
     total = len(cfgs)
     rnd.shuffle(cfgs)
     cfgs = cfgs[:6000 if thorough else 420]
+    for k, c in enumerate(cfgs):
+        c["marker"] = k % 3
     ctx.cov["suites"]["export"] = {"tlc_enumerated_configurations": total, "run": len(cfgs)}
     t0 = time.time()
     os.environ["VERIF_SCRATCH"] = tlc.OUT
